@@ -3,7 +3,7 @@
    IsInTimeRange (27-43), FindNthWeekday (56-105), ProcessTimeRangeRaw / ProcessTimeRanges (429-475)
    and the day loop of ScriptFunc (585-647).
 
-   Local time enters through two parameters (inputs of the model, never constants inside it):
+   Local time enters through two functions (inputs of the model, never constants inside it):
      off : Z -> Z   the UTC offset (seconds) in force at a UTC instant      (localtime_r)
      mk  : Z -> Z   local seconds-since-epoch "as if UTC" -> UTC instant      (mktime, tm_isdst = -1)
    A struct tm whose fields were modified and that is then normalised by mktime is represented by the
